@@ -43,7 +43,9 @@ def random_alignment(rng, names, dt, ncols, amb_rate=0.15, dup_rate=0.3):
         plain, special = list(ctmc.AA), list("BZX*?-")
     elif kind == "codon":
         sense, _ = ctmc.genetic_code(dt["code"])
-        plain, special = sense, ["---", "???", "A-C", "NNN", "ACN", "RAT"]
+        stops = [a + b + c for a in "ACGT" for b in "ACGT" for c in "ACGT" if a + b + c not in sense]
+        # a stop codon is not a state of the model: it can only count as missing data (or be refused), never as another codon
+        plain, special = sense, ["---", "???", "A-C", "NNN", "ACN", "RAT"] + stops[:2]
     else:
         plain = gm.general_codes(dt["k"])
         special = list(dt.get("amb", {}).keys()) + ["?", "-"]
